@@ -174,8 +174,8 @@ VOCAB = [
     (STR("abc"), '"abc"', ["atom_chars(abc, {V})", "{V} = [a,b,c]"]),
     (STR("ab"), '"ab"', ["atom_chars(ab, {V})"]),
     (LST([I(1), I(2)]), "[1,2]", ["{V} = [1|T0], T0 = [2]"]),
-    (LST([A("a")], V()), "[a|_]", []),
-    (LST([V()], V()), "[_|_]", ["copy_term([_|_], {V})"]),
+    (LST([A("a")], V()), "[a|_]", ["{V} =.. ['.', a, _]"]),
+    (LST([V()], V()), "[_|_]", ["copy_term([_|_], {V})", "functor({V}, '.', 2)"]),
     (LST([V()]), "[_]", ["length({V}, 1)"]),
     (S("f", I(1)), "f(1)", ["{V} =.. [f,1]"]),
     (S("f", A("x")), "f(x)", ["copy_term(f(x), {V})"]),
@@ -508,7 +508,7 @@ def failed_update(d, impl):
         else:
             ok = r is not None and not r.startswith("panic")
         if not ok:
-            return lid, f[-1], r
+            return lid, f[-1], r, lid.endswith("_u")
     return None
 
 
@@ -518,8 +518,12 @@ def judge(obs_list, impl, model, findings, stats, verbose=False):
         qid = d["qid"]
         fu = failed_update(d, impl)
         if fu is not None:
-            lid, text, r = fu
+            lid, text, r, setup = fu
             stats["skipped_after_failed_update"] = stats.get("skipped_after_failed_update", 0) + 1
+            if setup:
+                # loading library(lists) is not part of the property: inconclusive, never reported
+                stats["inconclusive_setup"] = stats.get("inconclusive_setup", 0) + 1
+                continue
             if lid in reported_updates or _incomplete(r):
                 continue
             reported_updates.add(lid)
@@ -605,7 +609,7 @@ def run(ctx):
         d["call_terms"] = [_tt(t) for t in d["call_terms"]]
         d["live"] = [(cid, [_tt(t) for t in hd]) for cid, hd in d["live"]]
         d["qid"] = d["qid"]
-    ncases = 320 if tier == "quick" else 12000
+    ncases = 320 if tier == "quick" else 8000
     cases = [gen_case(rng, n, tier) for n in range(ncases)]
     run_list = [{"impl": c.impl, "model": c.model} for c in cases]
     for d in corpus:
@@ -614,7 +618,8 @@ def run(ctx):
     # a loaded machine can make the 10 s watchdog fire: such cases are re-run serially once and, if
     # still incomplete, counted as inconclusive (never reported)
     inconclusive = set()
-    redo = [r for r in run_list if any(_incomplete(impl.get(core.line_id(l))) for l in r["impl"])]
+    redo = [r for r in run_list if any(_incomplete(impl.get(core.line_id(l))) for l in r["impl"])
+            or not (impl.get(core.line_id(r["impl"][0])) or "").startswith("true")]
     stats["rerun_serially"] = len(redo)
     for r in redo:
         again, _ = diff.run_cases([{"impl": r["impl"]}], parallel=False)
